@@ -180,6 +180,7 @@ type expect struct {
 	exact bool
 	items []item // exact: the precise answer sequence
 	cands []pair // !exact: candidate pairs in specification order (validity predicate)
+	once  bool   // !exact: every candidate object must appear exactly once (non-unique indexes)
 }
 
 // expected computes the oracle answer of a query on a table state.
@@ -267,8 +268,17 @@ func (t *tState) expected(q Query) expect {
 	if q.Kind == qGet && len(sel) > 1 {
 		sel = sel[:1]
 	}
-	if !unique && (q.Kind == qPrefix || q.Kind == qLowerBound) {
-		return expect{exact: false, cands: sel}
+	if q.Kind == qPrefix || q.Kind == qLowerBound {
+		if !unique {
+			// one query on a non-unique index reports an object once, however
+			// many of its keys match (the index de-duplicates by primary key)
+			return expect{exact: false, cands: sel, once: true}
+		}
+		if q.Idx == idxU {
+			// unique multi-key index: an object whose several keys match may be
+			// reported per key or once; both satisfy the statement
+			return expect{exact: false, cands: sel}
+		}
 	}
 	out := make([]item, len(sel))
 	for i, p := range sel {
@@ -308,6 +318,9 @@ func (e expect) check(got []item) string {
 	}
 	ci := 0
 	for _, g := range got {
+		if e.once && want[g] {
+			return fmt.Sprintf("got %v reports %v more than once for one query", got, g)
+		}
 		if _, ok := want[g]; !ok {
 			return fmt.Sprintf("got %v contains %v which matches no candidate (candidates %v)", got, g, e.cands)
 		}
